@@ -8,11 +8,16 @@
 (* a member, a container may hold the same object twice.                                        *)
 (* A call names its two arguments on the heap - this is the calling FORM, which the single-call  *)
 (* families of MC_Ops leave to the driver:                                                      *)
-(*     [op |-> operator, a |-> ref, b |-> ref, join |-> index policy, cols |-> column policy]    *)
+(*     [op |-> operator, a |-> ref, b |-> ref, join |-> index policy, cols |-> column policy,    *)
+(*      m |-> fill method (OpsLaw!OpsMethods)]                                                  *)
 (*     ref = [r |-> "o", i |-> object] | [r |-> "l", i |-> container] | [r |-> "none", i |-> 0] *)
 (* e.g.  add_(L1, s3)   mul_(s1, L2)   min_(L1, L2)   add_(L1, L1)   df_count(L1)   sub_(s1, L2) *)
 (* Between two calls the caller may change its own objects (append to / pop from a list,         *)
-(* overwrite a cell of a series).                                                               *)
+(* overwrite a cell of a series) - and EDIT AN OPERAND IN PLACE so that it stays the same object *)
+(* of the same shape: re-date its index (shift every stamp, replace one stamp), rename a column  *)
+(* of a frame, re-order the columns of a frame (the same abstract frame), overwrite several      *)
+(* cells.  Whatever a call may have remembered about an object (keyed on its identity, length,   *)
+(* shape) is stale after such an edit: the law looks at the objects as they are at the call.      *)
 (*                                                                                             *)
 (* LAW (from the statement): "lists of operands reduce left to right" - the operands of a call   *)
 (* are the members of its arguments, as the caller holds them AT THE TIME OF THE CALL, in order; *)
@@ -22,7 +27,7 @@
 (* MECHANISM (from the code): dfs = as_list(a) + as_list(b), where as_list(x) IS x when x is a   *)
 (* python list.  Variant Extend (dfs = as_list(a); dfs += as_list(b)) shows what the law         *)
 (* forbids: the concatenation is then written into the caller's own list.                       *)
-EXTENDS Series, FiniteSetsExt
+EXTENDS OpsLaw, FiniteSetsExt
 
 NoRef   == [i |-> 0, r |-> "none"]
 ORef(i) == [i |-> i, r |-> "o"]
@@ -70,7 +75,8 @@ SessDomain(h, c) ==
        \* the scalar divisor 0 is the named deviation DivScalarZero of Series.tla, stated for two operands only
        /\ (c.op = "div" /\ Len(xs) > 2) => \A i \in 2..Len(xs) : ~(IsScalar(xs[i]) /\ xs[i].v = Zero)
        /\ c.op \in AggOps => c.join = "oj" /\ AggUniformShapes(xs)
-       /\ c.op \notin AggOps => ColsPinned(c.op, xs, c.cols)
+       /\ c.op \notin AggOps => OpsColsPinned(c.op, xs, c.cols)
+       /\ OpsMethodOK(xs, c.m) /\ (c.op \in AggOps => c.m = "none")
        /\ (c.cols = "ij" /\ multi # <<>>) =>
               Cardinality(CommonCols("ij", [i \in 1..Len(multi) |-> Cols(multi[i])])) >= (IF Len(xs) >= 3 /\ Len(multi) >= 2 THEN 2 ELSE 1)
 
@@ -91,20 +97,50 @@ SessOutcomes(h, c) ==
     LET xs == Xs(h, c) IN
     IF c.op \in AggOps THEN {Agg(c.op, xs, c.cols)}
     ELSE IF c.op \in CutOps /\ Len(xs) > 2 THEN {Flat(h, c), Nested(h, c)}
-    ELSE OpOutcomes(c.op, xs, c.join, c.cols)
+    ELSE OpsOutcomes(c.op, xs, c.join, c.cols, c.m)
 
-\* what the caller does to its own objects between calls
-\*   [act |-> "append", l |-> list, o |-> object]   [act |-> "pop", l |-> list, o |-> 0]   [act |-> "poke", l |-> 0, o |-> series]
+\* what the caller does to its own objects between calls: a step [act, c, l, o, x, p] (x: a number, p: names)
+\*   [act |-> "append", l |-> list, o |-> object]   [act |-> "pop", l |-> list]   [act |-> "poke", o |-> series]
+\* and the in-place edits that keep the object's identity and shape
+\*   [act |-> "shift",   o |-> timeseries, x |-> +1 | -1]     ts.index = ts.index + x days
+\*   [act |-> "restamp", o |-> timeseries, x |-> position]   stamp number x moves one day on (it stays before the next one)
+\*   [act |-> "rename",  o |-> frame, p |-> <<old, new>>]     a column gets another name
+\*   [act |-> "reorder", o |-> frame]                         the columns are put in another physical order: the same frame
+\*   [act |-> "pokes",   o |-> timeseries, x |-> 0 | 1]       every other cell (1st, 3rd, ..; of a frame: in its first column)
+\*                                                           is overwritten with NaN (0) resp. with the number 0 (1)
 CanAppend(h, l, o) == l \in 1..Len(h.lists) /\ h.lists[l].k = "l" /\ o \in 1..Len(h.objs)
 CanPop(h, l)       == l \in 1..Len(h.lists) /\ h.lists[l].k = "l" /\ h.lists[l].ids # <<>>
 CanPoke(h, o)      == o \in 1..Len(h.objs) /\ IsS(h.objs[o]) /\ Len(h.objs[o].v) >= 1 /\ ~IsNaN(h.objs[o].v[1])
-CanDo(h, s) == CASE s.act = "append" -> CanAppend(h, s.l, s.o)
-                 [] s.act = "pop"    -> CanPop(h, s.l)
-                 [] s.act = "poke"   -> CanPoke(h, s.o)
-                 [] OTHER            -> FALSE
-Apply(h, s) == CASE s.act = "append" -> [h EXCEPT !.lists[s.l].ids = Append(@, s.o)]
-                 [] s.act = "pop"    -> [h EXCEPT !.lists[s.l].ids = SubSeq(@, 1, Len(@) - 1)]
-                 [] s.act = "poke"   -> [h EXCEPT !.objs[s.o].v[1] = NaNC]          \* the first observation is withdrawn
+IsTsAt(h, o)       == o \in 1..Len(h.objs) /\ IsTs(h.objs[o])
+CanShift(h, o, d)  == IsTsAt(h, o) /\ Len(h.objs[o].t) >= 1 /\ d \in {-1, 1} /\ h.objs[o].t[1] + d >= 1
+CanRestamp(h, o, i) == IsTsAt(h, o) /\ i \in 1..Len(h.objs[o].t) /\ (i = Len(h.objs[o].t) \/ h.objs[o].t[i + 1] > h.objs[o].t[i] + 1)
+CanRename(h, o, p) == IsTsAt(h, o) /\ IsMulti(h.objs[o]) /\ Len(p) = 2 /\ p[1] \in Cols(h.objs[o]) /\ p[2] \in Range(ColU) \ Cols(h.objs[o])
+CanReorder(h, o)   == IsTsAt(h, o) /\ IsMulti(h.objs[o])
+CanPokes(h, o, x)  == IsTsAt(h, o) /\ Len(h.objs[o].t) >= 1 /\ x \in {0, 1}
+Shifted(ob, d)   == [ob EXCEPT !.t = [i \in 1..Len(ob.t) |-> ob.t[i] + d]]
+Restamped(ob, i) == [ob EXCEPT !.t[i] = @ + 1]
+Renamed(ob, p)   == MkF(Times(ob), (Cols(ob) \ {p[1]}) \cup {p[2]}, LAMBDA c, x : FVal(ob, IF c = p[2] THEN p[1] ELSE c, x))
+EveryOther(cells, x) == [i \in 1..Len(cells) |-> IF i % 2 = 1 THEN (IF x = 0 THEN NaNC ELSE Zero) ELSE cells[i]]
+Poked(ob, x)     == IF IsS(ob) THEN [ob EXCEPT !.v = EveryOther(@, x)] ELSE [ob EXCEPT !.v[1] = EveryOther(@, x)]
+CanDo(h, s) == CASE s.act = "append"  -> CanAppend(h, s.l, s.o)
+                 [] s.act = "pop"     -> CanPop(h, s.l)
+                 [] s.act = "poke"    -> CanPoke(h, s.o)
+                 [] s.act = "shift"   -> CanShift(h, s.o, s.x)
+                 [] s.act = "restamp" -> CanRestamp(h, s.o, s.x)
+                 [] s.act = "rename"  -> CanRename(h, s.o, s.p)
+                 [] s.act = "reorder" -> CanReorder(h, s.o)
+                 [] s.act = "pokes"   -> CanPokes(h, s.o, s.x)
+                 [] OTHER             -> FALSE
+Apply(h, s) == CASE s.act = "append"  -> [h EXCEPT !.lists[s.l].ids = Append(@, s.o)]
+                 [] s.act = "pop"     -> [h EXCEPT !.lists[s.l].ids = SubSeq(@, 1, Len(@) - 1)]
+                 [] s.act = "poke"    -> [h EXCEPT !.objs[s.o].v[1] = NaNC]          \* the first observation is withdrawn
+                 [] s.act = "shift"   -> [h EXCEPT !.objs[s.o] = Shifted(@, s.x)]
+                 [] s.act = "restamp" -> [h EXCEPT !.objs[s.o] = Restamped(@, s.x)]
+                 [] s.act = "rename"  -> [h EXCEPT !.objs[s.o] = Renamed(@, s.p)]
+                 [] s.act = "reorder" -> h                                           \* column order is no part of a frame
+                 [] s.act = "pokes"   -> [h EXCEPT !.objs[s.o] = Poked(@, s.x)]
+\* the edits that keep identity and shape (what a memo could be keyed on)
+ShapeKeeping == {"poke", "shift", "restamp", "rename", "reorder", "pokes"}
 
 \* ---------------------------------------------------------------------------------------------
 \* MECHANISM of the argument handling
@@ -119,7 +155,7 @@ MechCall(h, c, extend) ==
                ELSE h
         xs  == ObjsOf(h, ids)
         out == IF c.op \in AggOps THEN Agg(c.op, xs, c.cols)
-               ELSE IF c.op \in CutOps THEN Nested(h, c)                \* a = add_(a) .. b = add_(b) .. _sub_(a, b)
-               ELSE Reduce(c.op, xs, c.join, c.cols)
+               ELSE IF c.op \in CutOps /\ Len(xs) > 2 THEN Nested(h, c)                \* a = add_(a) .. b = add_(b) .. _sub_(a, b)
+               ELSE OpsReduce(c.op, xs, c.join, c.cols, c.m, "row")
     IN  [heap |-> h2, out |-> out]
 =============================================================================
